@@ -374,6 +374,8 @@ bloom_filter_alloc<A> bloom_filter_alloc<A>::internal_deserialize_or_wrap(void* 
     return bloom_filter_alloc<A>(num_longs << 6, num_hashes, seed, allocator);
   }
 
+  // a non-empty image has the number of bits set in a 4th preamble long, whatever prelongs says
+  ensure_minimum_memory(length_bytes, PREAMBLE_LONGS_STANDARD * sizeof(uint64_t));
   uint64_t num_bits_set;
   ptr += copy_from_mem(ptr, num_bits_set);
   const bool is_dirty = (num_bits_set == DIRTY_BITS_VALUE);
